@@ -104,6 +104,8 @@ def gen_filters(g, rng, tier, n):
             guard = {"k": "cmp", "p": ["field", "prio"], "c": "ne", "v": ["none"]}
             second = {"k": "cmp", "p": ["field", "prio"], "c": rng.choice(["ge", "le", "gt", "lt"]),
                       "v": ["int", rng.choice([0, 1, 2, 5])]}
+            if all(e[2] % 5 for e in evs):
+                evs[0][2] = 5 * (max(e[2] for e in evs) // 5 + 1)      # an event whose prio is None (ids = 0 mod 5)
             t = {"op": "filt", "s": {"op": "filt", "s": {"op": "stored", "evs": evs}, "f": guard}, "f": second}
         if rng.random() < 0.15:
             t = {"op": "or", "l": t, "r": g.leaf("disjoint")}
